@@ -46,6 +46,13 @@ pub fn directories(tier: &str) -> Vec<(String, BackendCfg, Vec<Op>)> {
             ],
         ),
     ];
+    // an older snapshot with sequence number 0 (taken before the first write): the "no sequence
+    // information" edge of the fallback-coverage logic
+    v.push((
+        "baseline-snapshot-before-first-write".to_string(),
+        mk(0, 1),
+        vec![Op::Snap, ins(1, 1.0, 0.0, "a"), ins(2, 0.0, 1.0, "b"), Op::Del { id: 1 }, Op::UpdMeta { id: 2, m: meta1("t", "b2"), merge: true }, Op::Snap, ins(3, 1.0, 1.0, "c")],
+    ));
     if tier == "thorough" {
         v.push((
             "auto-snapshots-interval-2".to_string(),
